@@ -262,7 +262,7 @@ func RunChild(prop, tier string, spec ChildSpec, parentDir string, watchdog time
 	logf, _ := os.Create(logPath)
 	defer logf.Close()
 
-	self, _ := os.Executable()
+	self := selfBinary(parentDir)
 	args := []string{self, "--child", prop, tier,
 		"--batch", strconv.Itoa(spec.Batch), "--batches", strconv.Itoa(spec.Batches), "--dir", dir}
 	args = append(args, spec.Args...)
@@ -603,4 +603,31 @@ func oneLine(s string, n int) string {
 		s = s[:n] + "…"
 	}
 	return s
+}
+
+var (
+	selfOnce sync.Once
+	selfPath string
+)
+
+// selfBinary returns a private hard link (or copy) of the running binary inside the run's scratch
+// directory, so that a rebuild of /verif/bin while this run is in progress cannot break its children.
+func selfBinary(dir string) string {
+	selfOnce.Do(func() {
+		exe, err := os.Executable()
+		if err != nil {
+			selfPath = os.Args[0]
+			return
+		}
+		selfPath = exe
+		priv := filepath.Join(dir, "vcheck-self")
+		if os.Link(exe, priv) == nil {
+			selfPath = priv
+			return
+		}
+		if b, err := os.ReadFile(exe); err == nil && os.WriteFile(priv, b, 0o755) == nil {
+			selfPath = priv
+		}
+	})
+	return selfPath
 }
